@@ -1,16 +1,29 @@
-from props import COMMON_TB
+from cacheprops import CACHE_TB, CACHE_ASSUMPTIONS, ca_component
 
 ID = "C03"
 PROP = {
-    "unclaimed": True,
-    "modules": [],
-    "theorems": [],
-    "components": [
-        {"c": "ca", "quick": {"n": 1500}, "thorough": {"n": 20000, "seeds": 4}},
+    "modules": ["Gnmi.Props.C03"],
+    "theorems": ["Gnmi.C03." + t for t in [
+        "withheld_only_if", "atomic_unit", "delete_events", "delete_event_path",
+        "dispatch_single_upd", "dispatch_single_del", "multiUpdates_round"]],
+    "components": [ca_component("", 2000, 30000)],
+    "monitor": "spec", "level": "proof",
+    "trusted_base": CACHE_TB + ["the replay monitor (feed events applied by the harness itself to a view, compared with Cache.Query) is part of the harness"],
+    "assumptions": CACHE_ASSUMPTIONS + [
+        "origin of a cached notification is carried in the prefix (cache's stated contract); sequences with path-level origins are still "
+        "compared with the model but not with the replay monitor",
     ],
-    "monitor": "spec",
-    "level": "proof",
-    "trusted_base": COMMON_TB,
-    "assumptions": [],
-    "manifest": {"level_text": "", "level_note": "", "technique": ""},
+    "manifest": {
+        "level_text": "Lean 4 theorems over the cache model: an update is withheld from the feed only if rejected or (event-driven on, plain leaf, "
+                      "value unchanged) and what is fed is the notification itself (withheld_only_if); atomic notifications are stored and fed as "
+                      "one unit (atomic_unit); each removed leaf yields exactly one delete event built from its own notification whose announced "
+                      "path is the leaf's index (delete_events, delete_event_path); one round of the multi-update loops is the single-notification "
+                      "arm (dispatch_single_*, multiUpdates_round). The replay equivalence itself (applying the feed reproduces Query at every "
+                      "quiescent point, also with shared prefix objects and re-sent notification objects) is checked on every run by a model-independent "
+                      "monitor in the harness over generated histories, and the model is tied to the code by the ca correspondence; "
+                      "the general simulation theorem is stated in DESIGN and not yet proved in Lean (partial).",
+        "level_note": "Trusted: Lean kernel; model validated by the ca correspondence; harness replay monitor; Go runtime. Partial: the whole-history "
+                      "simulation theorem feed_simulation is validated by the monitor, not yet kernel-checked.",
+        "technique": "Lean 4 proof of the per-step feed laws + model/implementation correspondence with aliasing generators + model-independent feed-replay monitor",
+    },
 }
